@@ -172,3 +172,50 @@ func VerifC07HTTP() {
 		zzverif.Reach("C07.http.unprotected-forwarded")
 	}
 }
+
+// VerifC06DecodedPath: locations are matched against the decoded path of the request - the same
+// text the credential check uses - so a path segment that needs escaping on the wire ("/a b",
+// "/café") selects the route registered for it, and the route checked is the route dialled.
+func VerifC06DecodedPath() {
+	rs := NewRouters()
+	rp := &HTTPReverseProxy{vhostRouter: rs}
+	rp.proxy = &c07Handler{rp}
+	loc := []string{"/a b", "/café", "/plain"}[zzverif.Choice("location", 3)]
+	mk := func(name, location, user string) RouteConfig {
+		rc := RouteConfig{Domain: "h.com", Location: location, Username: user, Password: user}
+		rc.CreateConnFn = func(string) (net.Conn, error) {
+			c07.dialedRoute = name
+			return nil, errors.New("no backend in harness")
+		}
+		return rc
+	}
+	zzverif.Assume(rp.Register(mk("root", "/", "")) == nil)
+	zzverif.Assume(rp.Register(mk("loc", loc, "u")) == nil)
+	c07.authOK = zzverif.Bool("hasAuthorization")
+	c07.authUser, c07.authPass = "", ""
+	if c07.authOK {
+		c07.authUser, c07.authPass = "u", "u"
+	}
+	c07.proxyHdr, c07.pUser, c07.pPass, c07.pOK = "", "", "", false
+	c07.forwards, c07.forwardedRoute, c07.forwardedInfo, c07.dialedRoute, c07.status, c07.challenge = 0, nil, nil, "", 0, false
+	under := zzverif.Bool("underTheLocation")
+	path := "/other/x"
+	if under {
+		path = loc + "/x"
+	}
+	req := &http.Request{Method: "GET", Host: "h.com", URL: &url.URL{Path: path}, Header: http.Header{}, RemoteAddr: "9.9.9.9:1"}
+	rp.ServeHTTP(&c07RW{hdr: http.Header{}}, req)
+	switch {
+	case !under:
+		zzverif.Assert(c07.forwards == 1 && c07.dialedRoute == "root", "C06.path.request-outside-the-location-goes-to-the-root-route")
+		zzverif.Reach("C06.path.root")
+	case !c07.authOK:
+		zzverif.Assert(c07.forwards == 0 && c07.status == 401 && c07.dialedRoute == "", "C07.path.protected-location-challenges-also-when-its-path-needs-escaping")
+		zzverif.Reach("C06.path.challenged")
+	default:
+		zzverif.Assert(c07.forwards == 1 && c07.dialedRoute == "loc", "C06.path.request-under-a-location-reaches-that-location's-backend")
+		if loc != "/plain" {
+			zzverif.Reach("C06.path.escaped-location")
+		}
+	}
+}
